@@ -1,4 +1,8 @@
-"""Small maintenance commands:  python -m sim.tools witness PROP RUN_INDEX OUT_PATH SIGNATURE [VERIF_SEED] [TIER]"""
+"""Small maintenance commands:
+  python -m sim.tools witness PROP RUN_INDEX OUT_PATH SIGNATURE [VERIF_SEED] [TIER]
+  python -m sim.tools one PROP RUN_INDEX [VERIF_SEED] [TIER]      run one run index and print its case and result
+  python -m sim.tools mini PROP RUN_INDEX OUT_PATH [VERIF_SEED] [TIER]   minimise a violating run and write a replay file
+"""
 import json
 import sys
 
@@ -20,6 +24,41 @@ def witness(prop, index, out, signature, verif_seed="0", tier="quick"):
     print("wrote", out, "outcome now:", res["outcome"], res.get("signature"))
 
 
+def one(prop, index, verif_seed="0", tier="quick"):
+    check = runner.load_check(prop)
+    rs = runner.run_seed(verif_seed, prop, int(index))
+    case = check.gen_case(rs, tier)
+    case["run_index"] = int(index)
+    case["run_seed"] = rs
+    res = runner.exec_case(check, case, 120)
+    print(json.dumps({"case": case, "result": res}, indent=1, sort_keys=True, default=str))
+
+
+def mini(prop, index, out, verif_seed="0", tier="quick"):
+    check = runner.load_check(prop)
+    rs = runner.run_seed(verif_seed, prop, int(index))
+    case = check.gen_case(rs, tier)
+    case["run_index"] = int(index)
+    case["run_seed"] = rs
+    res = runner.exec_case(check, case, 120)
+    if res["outcome"] != "violation":
+        print("not a violation:", res["outcome"], res.get("reason"))
+        return
+    mcase, n = runner.minimise(check, case, res["signature"], budget_runs=400, budget_s=300)
+    mres = runner.exec_case(check, mcase, 120)
+    doc = {"property": prop, "verif_seed": verif_seed, "run_index": int(index),
+           "violation": {"class": mres.get("class"), "signature": mres.get("signature"), "detail": mres.get("detail")},
+           "case": mcase, "event_digest": mres.get("digest"), "minimised": n > 0}
+    with open(out, "w") as f:
+        json.dump(doc, f, indent=1, sort_keys=True, default=str)
+    print("wrote", out, "after", n, "re-runs:", mres.get("signature"))
+    print(mres.get("detail"))
+
+
 if __name__ == "__main__":
     if sys.argv[1] == "witness":
         witness(*sys.argv[2:])
+    elif sys.argv[1] == "one":
+        one(*sys.argv[2:])
+    elif sys.argv[1] == "mini":
+        mini(*sys.argv[2:])
